@@ -9,6 +9,15 @@ bind  : spec -> code : every final state TLC reaches (REF + <= 3 distinct ALTs) 
         code -> spec : assemble outputs (repo goldens + fresh runs over thresholds / ploidies / BAM sets / pools,
                        incl. REFMASKED, ALT-less and SNV-less records) are fed to `call` and `call-exact`;
                        every (input record, output record) pair is validated by TraceHapCodec.tla.
+regimes added after the fourth seeded round:
+  * INFO/SNVPOS absent, '.', incomplete or stale relative to REF/ALT (merged / edited catalogues): HapCodec.tla carries
+    the annotation as the state variable `hint` (Annotate step, Hints <- AnyHint in MC_hint*.cfg); the sequence path never
+    consults it (FoundCols; Mutant_hinted.cfg), the trusted path is judged when the hint covers the record
+    (CoveringHintRoundTrips).  All those states are replayed, a sample goes through call / call-exact as catalogues, the
+    random larger records carry random annotations (TraceHapCodec!CodecVerdict, clause CoveringSnvposRoundTrips).
+  * targets sharing a start position (nested targets): CallStream.tla enumerates the target lists; each becomes a BED ->
+    real assemble -> real call / call-exact; TraceHapCodec!RunVerdict (clause EveryRecordOnce) + the per-record pairs.
+    Catalogues with adjacent same-POS records of different length go the same way.
 """
 import copy
 import json
@@ -31,10 +40,37 @@ def header():
     return vcfgen.header([("CHR1", 60), ("CHR2", 60), ("CHR3", 60)], info=["SNVPOS", "REFMASKED"])
 
 
-def line(s, pos, rid, snvpos=None):
+def hint_info(hint, L):
+    """INFO items for a model annotation: absent -> no SNVPOS key, dot -> SNVPOS=. , list -> the columns"""
+    if hint is None:
+        return [("SNVPOS", list(range(1, L + 1)))]
+    if hint["kind"] == "absent":
+        return []
+    if hint["kind"] == "dot":
+        return [("SNVPOS", None)]
+    return [("SNVPOS", list(hint["cols"]))]
+
+
+def line(s, pos, rid, snvpos=None, use_hint=True):
     L = len(s["ref"])
-    return vcfgen.record("CHR1", pos, "".join(s["ref"]), ["".join(a) for a in s["alts"]],
-                         info=[("SNVPOS", snvpos if snvpos is not None else list(range(1, L + 1)))], id=rid, filt=".")
+    if snvpos is not None:
+        info = [("SNVPOS", snvpos)]
+    else:
+        info = hint_info(s.get("hint") if use_hint else None, L)
+    return vcfgen.record("CHR1", pos, "".join(s["ref"]), ["".join(a) for a in s["alts"]], info=info, id=rid, filt=".")
+
+
+def hint_key(s):
+    h = s.get("hint")
+    return None if h is None else (h["kind"], tuple(h["cols"]))
+
+
+def covers(s):
+    """the model's Covers(hint, rec) (HapCodecOps): every polymorphic column is named by the annotation"""
+    h = s.get("hint")
+    if h is None:
+        return True
+    return h["kind"] != "absent" and set(s["cols"]) <= set(h["cols"])
 
 
 def compare_state(ck, s, o, pos):
@@ -54,25 +90,33 @@ def compare_state(ck, s, o, pos):
                 ck.violation("codec", dict(inst, field=k, impl=a.get(k), model=v), key={"site": SITE, "path": "sequences", "field": k})
                 n += 1
     b = o["snvpos"]
-    if "error" in b:
+    h = s.get("hint")
+    hcols = list(range(1, L + 1)) if h is None else list(h["cols"])
+    if not covers(s):
+        # the trusted path with an annotation that misses a polymorphic column (or with none at all) is outside the
+        # stated clause (HapCodec!NonCoveringHintLosesSequence: it cannot round-trip); only the sequence path is judged
+        pass
+    elif "error" in b:
         ck.violation("aborted", dict(inst, error=b["error"], use_snvpos=True), key={"site": SITE, "path": "snvpos", "error": b["etype"]})
     else:
-        # SNVPOS = every column: monomorphic columns have one allele and encode to 0; the round trip must still hold
+        # covering SNVPOS (HapCodec!CoveringHintRoundTrips): monomorphic columns have one allele and encode to 0, the
+        # polymorphic ones carry the sequence path's matrix; the round trip must still hold
         if b.get("decoded") != rows:
             ck.violation("codec", dict(inst, field="decoded", use_snvpos=True, impl=b.get("decoded"), model=rows),
                          key={"site": SITE, "path": "snvpos", "field": "decoded"})
-        if b.get("cols") != list(range(1, L + 1)):
+        if b.get("cols") != hcols:
             ck.violation("codec", dict(inst, field="cols", use_snvpos=True, impl=b.get("cols")), key={"site": SITE, "path": "snvpos", "field": "cols"})
-        sub = [[row[c - 1] for c in s["cols"]] for row in b.get("matrix", [])]
-        if sub != s["matrix"]:
+        sub = [[row[hcols.index(c)] for c in s["cols"]] for row in b.get("matrix", [])] if b.get("cols") == hcols else None
+        rest = [[row[j] for j, c in enumerate(hcols) if c not in s["cols"]] for row in b.get("matrix", [])] if b.get("cols") == hcols else []
+        if sub != s["matrix"] or any(x != 0 for row in rest for x in row):
             ck.violation("codec", dict(inst, field="matrix", use_snvpos=True, impl=b.get("matrix"), model=s["matrix"]),
                          key={"site": SITE, "path": "snvpos", "field": "matrix"})
     return n
 
 
-def abstract_src(r):
+def abstract_src(r, assembled=True):
     sp = r.info.get("SNVPOS")
-    return {"chrom": r.chrom, "pos": r.pos, "ref": list(r.ref), "alts": [list(a) for a in r.alts],
+    return {"assembled": assembled, "chrom": r.chrom, "pos": r.pos, "ref": list(r.ref), "alts": [list(a) for a in r.alts],
             "has_snvpos": sp is not None, "snvpos": [] if sp in (None, ".", True) else [int(x) for x in sp.split(",")],
             "filters": list(r.filters)}
 
@@ -86,6 +130,39 @@ def abstract_out(r):
     return {"chrom": r.chrom, "pos": r.pos, "ref": list(r.ref), "alts": [list(a) for a in r.alts],
             "snvpos": [] if sp in (None, ".", True) else [int(x) for x in sp.split(",")],
             "filters": list(r.filters), "gts": gts}
+
+
+def run_key(r):
+    return "%s:%d:%s:%s" % (r.chrom, r.pos, r.ref, ",".join(r.alts))
+
+
+def match_records(ins, outs):
+    """input record -> the output record printed for it (or None).  Records are identified by (CHROM, POS, ID); several
+    records may share that (nested targets of an unnamed BED, catalogues without IDs): equally many -> paired in file
+    order, otherwise paired by identical REF/ALT and the rest is missing."""
+    gi, go = {}, {}
+    for i, r in enumerate(ins):
+        gi.setdefault((r.chrom, r.pos, r.id), []).append(i)
+    for r in outs:
+        go.setdefault((r.chrom, r.pos, r.id), []).append(r)
+    res = [None] * len(ins)
+    for k, idx in gi.items():
+        cand = list(go.get(k, []))
+        if len(cand) == len(idx):
+            for i, r in zip(idx, cand):
+                res[i] = r
+            continue
+        for i in idx:
+            for r in cand:
+                if r.ref == ins[i].ref and tuple(r.alts) == tuple(ins[i].alts):
+                    res[i] = r
+                    cand.remove(r)
+                    break
+    return res
+
+
+def is_assembled(label):
+    return not (label.startswith("model") or label.startswith("catalogue"))
 
 
 EMPTY_OUT = {"chrom": "", "pos": 0, "ref": [], "alts": [], "snvpos": [], "filters": [], "gts": []}
@@ -117,13 +194,25 @@ def main():
         "with >= 1 SNV column whose allele numbering is not the identity on rows (a repeated base or >= 3 alleles in a column). "
         "Pipeline: every record of every assemble output, paired with the call / call-exact record for it."
     )
-    cfgs = ["MC_quick.cfg", "MC_quick_b.cfg", "MC_quick_c.cfg"] if tier == "quick" else \
-        ["MC_quick_c.cfg", "MC_thorough.cfg", "MC_thorough_b.cfg", "MC_thorough_c.cfg"]
+    cfgs = ["MC_quick.cfg", "MC_quick_b.cfg", "MC_quick_c.cfg", "MC_hint.cfg"] if tier == "quick" else \
+        ["MC_quick_c.cfg", "MC_thorough.cfg", "MC_thorough_b.cfg", "MC_thorough_c.cfg", "MC_hint.cfg", "MC_hint_b.cfg", "MC_hint_thorough.cfg"]
+    hinted = []     # states whose SNVPOS annotation is absent / '.' / incomplete / stale, for the catalogue runs
+    n_hint = {"absent": 0, "dot": 0, "covering": 0, "non-covering": 0}
     wdir = os.path.join(ck.wd, "tmp")
     os.makedirs(wdir, exist_ok=True)
     seen = set()
     subset = []
     n_states = 0
+    # the small TLC runs (mutant configurations, target lists) go on in the background while the codec states are replayed
+    from concurrent.futures import ThreadPoolExecutor
+
+    MUTANTS = (("Mutant_unique.cfg", "RefRowZero"), ("Mutant_reffirst.cfg", "FirstAppearanceNumbering"),
+               ("Mutant_template.cfg", "RoundTrip"), ("Mutant_hinted.cfg", "SnvColsArePolymorphic"),
+               ("Mutant_stream.cfg", "EveryRecordOnce"))
+    side = ThreadPoolExecutor(max_workers=3)
+    fut_stream = side.submit(tlc.run, SPEC, "CallStream", "Stream_quick.cfg" if tier == "quick" else "Stream_thorough.cfg",
+                             workers=2, keep_stdout=False)
+    fut_mut = [side.submit(tlc.run, SPEC, "CallStream" if "stream" in cfg else "HapCodec", cfg, workers=2) for cfg, _ in MUTANTS]
     try:
         for cfg in cfgs:
             r = tlc.run(SPEC, "HapCodec", cfg, timeout=1700, keep_stdout=False)
@@ -132,7 +221,10 @@ def main():
                 ck.violation("model", {"cfg": cfg, "invariant": r.violated, "text": r.error_text[:1500]}, key={"model": "HapCodec", "cfg": cfg})
             states = []
             for s in r.printed:
-                k = ("".join(s["ref"]), tuple("".join(a) for a in s["alts"]))
+                full = s["hint"]["kind"] == "list" and s["hint"]["cols"] == list(range(1, len(s["ref"]) + 1))
+                if "hint" not in cfg and full:
+                    s["hint"] = None      # the FullHint configurations: SNVPOS = every column, as before
+                k = ("".join(s["ref"]), tuple("".join(a) for a in s["alts"]), hint_key(s))
                 if k not in seen:
                     seen.add(k)
                     states.append(s)
@@ -162,12 +254,27 @@ def main():
                 want = 150 if tier == "quick" else 1200
                 # program level: the aligner's reference is poly-A, and the read extractor insists that REF matches it
                 allA = [s for s in states if all(b == "A" for b in s["ref"])]
-                subset.extend(rnd.sample(allA, min(want // len(cfgs) + 1, len(allA))))
+                if "hint" in cfg:
+                    for s in states:
+                        h = s["hint"]
+                        n_hint[h["kind"] if h["kind"] != "list" else "covering" if covers(s) else "non-covering"] += 1
+                    stale = [s for s in allA if (s["alts"] and s["hint"]["kind"] != "list") or not covers(s)]
+                    hinted.extend(rnd.sample(stale, min(want // 3, len(stale))))
+                else:
+                    subset.extend(rnd.sample(allA, min(want // len([c for c in cfgs if "hint" not in c]) + 1, len(allA))))
             del states
+        # the record stream: target lists (nested targets included) for assemble -> call / call-exact
+        r = fut_stream.result()
+        ck.add_tlc(r, "CallStream")
+        if r.violated:
+            ck.violation("model", {"cfg": "CallStream", "invariant": r.violated, "text": r.error_text[:1500]}, key={"model": "CallStream"})
+        streams = sorted((p for p in r.printed if "targets" in p), key=lambda p: json.dumps(p["targets"]))
+        if tier != "quick":
+            nested = [p for p in streams if p["nested"]]
+            streams = rnd.sample(nested, min(60, len(nested))) + [p for p in streams if not p["nested"]][:6]
         killed = 0
-        for cfg, inv in (("Mutant_unique.cfg", "RefRowZero"), ("Mutant_reffirst.cfg", "FirstAppearanceNumbering"),
-                         ("Mutant_template.cfg", "RoundTrip")):
-            m = tlc.run(SPEC, "HapCodec", cfg)
+        for (cfg, inv), fm in zip(MUTANTS, fut_mut):
+            m = fm.result()
             if m.violated != inv:
                 ck.machinery_failure("mutant spec %s not killed (%s)" % (cfg, m.violated))
             killed += 1
@@ -176,6 +283,8 @@ def main():
         ck.machinery_failure(str(e))
     ck.traces += n_states
     ck.note("model_states_replayed", n_states)
+    ck.note("snvpos_annotation_states", n_hint)
+    ck.note("target_lists", {"all": len(streams), "nested": sum(p["nested"] for p in streams)})
 
     ph.mark("assemble")
     # ---- pipeline inputs ------------------------------------------------------
@@ -185,6 +294,24 @@ def main():
         sub = subset[a:a + 50]
         text = header() + "".join(line(s, 6 + j % 10, "M%d" % (a + j), snvpos=s["cols"] or None) for j, s in enumerate(sub))
         inputs.append(("model-states-%d" % a, text, ["--bam"] + BAMS + ["--ploidy", "4"]))
+    # (a2) catalogues: model states whose SNVPOS is absent / '.' / incomplete / stale (merged or edited haplotype files)
+    for a in range(0, len(hinted), 50):
+        sub = hinted[a:a + 50]
+        text = header() + "".join(line(s, 6 + j % 10, "H%d" % (a + j)) for j, s in enumerate(sub))
+        inputs.append(("catalogue-snvpos-%d" % a, text, ["--bam"] + BAMS + ["--ploidy", "4"]))
+    # (a3) a catalogue whose adjacent records share CHROM and POS and differ in length (what assemble prints for nested
+    # targets), with and without IDs; annotations of every kind
+    byL = {}
+    for s_ in subset + hinted:
+        byL.setdefault(len(s_["ref"]), []).append(s_)
+    if len(byL) >= 2:
+        lens = sorted(byL)
+        for named in (True, False):
+            lines = []
+            for g in range(12 if tier == "quick" else 40):
+                nest = [rnd.choice(byL[L_]) for L_ in rnd.sample(lens, rnd.randint(2, min(3, len(lens))))]
+                lines += [line(s_, 6 + g, ("N%d_%d" % (g, i)) if named else ".") for i, s_ in enumerate(nest)]
+            inputs.append(("catalogue-nested-%s" % ("ids" if named else "noids"), header() + "".join(lines), ["--bam"] + BAMS + ["--ploidy", "4"]))
     # (b) the repo's golden assemble outputs
     data = os.path.join(env.REPO, "mchap", "tests", "test_io", "data")
     for fn in sorted(os.listdir(data)):
@@ -228,6 +355,16 @@ def main():
     for bams, ploidy, extra in grid:
         argv = ["--bam"] + bams + (["--ploidy", str(ploidy)] if ploidy else []) + base + extra
         aruns.append((bams, ploidy, extra, argv))
+    # (d) the CallStream target lists: one BED each (named targets for even lists, a 3-column BED for odd ones)
+    for i, p_ in enumerate(streams):
+        bed = os.path.join(wdir, "targets-%d.bed" % i)
+        with open(bed, "w") as fh:
+            for a_, b_ in p_["targets"]:
+                fh.write("CHR1\t%d\t%d%s\n" % (a_, b_, "\tT_%02d_%02d" % (a_, b_) if i % 2 == 0 else ""))
+        bams = [BAMS, MIXED, DEEP][i % 3]
+        extra = ["--targets", bed, "--mcmc-seed", str(ck.seed + 13 * i + 2)]
+        argv = ["--bam"] + bams + ["--ploidy", "4"] + base[2:] + extra
+        aruns.append((bams, 4, ["stream"] + ["%d-%d" % tuple(t) for t in p_["targets"]], argv))
     res = pool.map_tasks("impl.c12", [{"op": "program", "name": "assemble", "argv": a[3]} for a in aruns], mode="jit")
     n_asm_fail = 0
     for (bams, ploidy, extra, argv), rr in zip(aruns, res):
@@ -236,6 +373,11 @@ def main():
             ck.note("assemble_run_failed_example", str(rr)[:300])
             continue
         cargs = ["--bam"] + bams + (["--ploidy", str(ploidy)] if ploidy else [a for a in extra if a.startswith("@") or a in ("--ploidy", "--sample-pool")])
+        if extra[0] == "stream":
+            n_rec = len(vcftext.parse(rr["result"]["out"]).records)
+            ck.evaluations += 1
+            if n_rec != len(extra) - 1:    # not a C12 clause (assemble's own output); recorded, the pipeline is judged on what it wrote
+                ck.note("assemble_records_vs_targets_example", {"targets": extra[1:], "records": n_rec})
         inputs.append(("run:assemble#%d %s" % (len(inputs), " ".join(extra[:4])), rr["result"]["out"], cargs))
     # the real command line once: `mchap assemble ...` in a fresh interpreter; its stdout joins the pipeline inputs
     cr = pool.map_tasks("impl.c12", [{"op": "cli", "argv": ["assemble", "--bam"] + BAMS + ["--ploidy", "4"] + base +
@@ -267,7 +409,7 @@ def main():
     for k, (label, text, cargs) in enumerate(inputs):
         for r in vcftext.parse(text).records:
             src = abstract_src(r)
-            if label.startswith("model"):
+            if not is_assembled(label):
                 continue
             events.append({"kind": "pair", "src": src, "prog": "none", "crashed": False, "present": True, "out": EMPTY_OUT})
             meta.append({"input": label, "line": r.line[:400]})
@@ -283,17 +425,20 @@ def main():
         o = rr["result"]
         ck.evaluations += 1
         crashed = "error" in o
-        outs = {}
-        if not crashed:
-            for r in vcftext.parse(o["out"]).records:
-                outs.setdefault((r.chrom, r.pos, r.id), []).append(r)
-        for r in vcftext.parse(text).records:
-            src = abstract_src(r)
-            got = outs.get((r.chrom, r.pos, r.id), [])
-            ev = {"kind": "pair", "src": src, "prog": prog, "crashed": crashed, "present": len(got) == 1, "out": abstract_out(got[0]) if len(got) == 1 else EMPTY_OUT}
+        ins = vcftext.parse(text).records
+        outs = [] if crashed else vcftext.parse(o["out"]).records
+        matched = match_records(ins, outs)
+        for r, g in zip(ins, matched):
+            src = abstract_src(r, is_assembled(label))
+            ev = {"kind": "pair", "src": src, "prog": prog, "crashed": crashed, "present": g is not None, "out": abstract_out(g) if g is not None else EMPTY_OUT}
             events.append(ev)
             meta.append({"input": label, "prog": prog, "line": r.line[:400], "error": o.get("error"), "chain": o.get("chain"),
-                         "output": got[0].line[:400] if len(got) == 1 else None})
+                         "output": g.line[:400] if g is not None else None})
+        # the run as a whole: every input record re-emitted exactly once, nothing else printed (TraceHapCodec!RunVerdict)
+        events.append({"kind": "run", "prog": prog, "crashed": crashed, "src": [run_key(r) for r in ins], "out": [run_key(r) for r in outs]})
+        meta.append({"input": label, "prog": prog, "line": "whole run: %d input records, %d output records" % (len(ins), len(outs)),
+                     "same_pos_adjacent": sum(1 for x, y in zip(ins, ins[1:]) if (x.chrom, x.pos) == (y.chrom, y.pos))})
+        shapes["adjacent-same-POS"] = shapes.get("adjacent-same-POS", 0) + (meta[-1]["same_pos_adjacent"] if prog == "call" else 0)
     if cli_input is not None:
         # ... and `mchap call-exact` on it through the command line: exit status 0, same records as in-process
         k = cli_input
@@ -316,7 +461,7 @@ def main():
     nrand = 400 if tier == "quick" else 5000
     rrecs = []
     for i in range(nrand):
-        L = rnd.randint(1, 12)
+        L = rnd.randint(1, 12) if i % 5 else rnd.randint(13, 40)
         ref = [rnd.choice("ACGT") for _ in range(L)]
         hot = [p_ for p_ in range(L) if rnd.random() < 0.4]
         rows = [ref]
@@ -327,7 +472,24 @@ def main():
                     h[p_] = rnd.choice("ACGT")
             if h not in rows:
                 rows.append(h)
-        rrecs.append({"ref": ref, "alts": rows[1:]})
+        # the INFO/SNVPOS annotation the record arrives with: absent, '.', complete, superset, incomplete or stale
+        poly = [p_ + 1 for p_ in range(L) if any(h[p_] != ref[p_] for h in rows[1:])]
+        mode = i % 6
+        if mode == 0:
+            hint = {"kind": "absent", "cols": []}
+        elif mode == 1:
+            hint = {"kind": "dot", "cols": []}
+        elif mode == 2:
+            hint = {"kind": "list", "cols": poly} if poly else {"kind": "dot", "cols": []}
+        elif mode == 3:     # what assemble writes: every input SNV of the locus, polymorphic in the haplotypes or not
+            hint = {"kind": "list", "cols": sorted(set(poly) | {p_ + 1 for p_ in hot})} if (poly or hot) else {"kind": "dot", "cols": []}
+        elif mode == 4:     # incomplete: some polymorphic columns missing (ALTs merged in from another file)
+            keep = [c for c in poly if rnd.random() < 0.5]
+            hint = {"kind": "list", "cols": keep} if keep else {"kind": "dot", "cols": []}
+        else:               # stale: columns of another haplotype set
+            cs = sorted(c for c in range(1, L + 1) if rnd.random() < 0.3)
+            hint = {"kind": "list", "cols": cs} if cs else {"kind": "dot", "cols": []}
+        rrecs.append({"ref": ref, "alts": rows[1:], "hint": hint})
     rtasks = []
     for a in range(0, nrand, 500):
         sub = rrecs[a:a + 500]
@@ -345,9 +507,13 @@ def main():
             ck.violation("aborted", {"REF": "".join(s["ref"]), "ALT": ["".join(x) for x in s["alts"]], "error": a["error"]},
                          key={"site": SITE, "path": "sequences", "error": a["etype"]})
             continue
-        events.append({"kind": "codec", "ref": s["ref"], "alts": s["alts"], "cols": a["cols"], "alleles": a["alleles"],
-                       "matrix": a["matrix"], "decoded": [list(x) for x in a["decoded"]]})
-        meta.append({"input": "random-record", "line": "REF=%s ALT=%s" % ("".join(s["ref"]), ",".join("".join(x) for x in s["alts"]))})
+        b = o["snvpos"]
+        trusted = {"ok": False, "cols": [], "matrix": [], "decoded": []} if "error" in b else \
+            {"ok": True, "cols": b["cols"], "matrix": b["matrix"], "decoded": [list(x) for x in b["decoded"]]}
+        events.append({"kind": "codec", "ref": s["ref"], "alts": s["alts"], "hint": s["hint"], "cols": a["cols"], "alleles": a["alleles"],
+                       "matrix": a["matrix"], "decoded": [list(x) for x in a["decoded"]], "trusted": trusted})
+        meta.append({"input": "random-record", "line": "REF=%s ALT=%s SNVPOS=%s" % ("".join(s["ref"]), ",".join("".join(x) for x in s["alts"]),
+                                                                                   "(absent)" if s["hint"]["kind"] == "absent" else vcfgen.value(s["hint"]["cols"]))})
         n_codec += 1
     ck.note("random_codec_records", n_codec)
     ck.note("pipeline_inputs", len(inputs))
@@ -383,12 +549,12 @@ def main():
     ck.note("pipeline_pairs_validated", len(events))
     rejected = {p["reject"] - 1 for p in t.printed if "reject" in p}
     good = [e for i, e in enumerate(events) if i not in rejected and e["kind"] == "pair" and e["prog"] != "none" and not e["crashed"] and e["present"]
-            and len(e["out"]["alts"]) >= 2 and len(e["out"]["snvpos"]) >= 2 and e["src"]["has_snvpos"]]
+            and len(e["out"]["alts"]) >= 2 and len(e["out"]["snvpos"]) >= 2 and e["src"]["has_snvpos"] and e["src"]["assembled"]]
     if not good:
         if not ck.violations:
             ck.machinery_failure("no accepted pipeline pair to corrupt")
         ph.mark("end")
-    finish(ck, wdir)
+        finish(ck, wdir)
     ck.sample({"kind": "pipeline-pair", "event": good[0]})
     bads = []
     b = copy.deepcopy(good[0]); b["out"]["alts"] = b["out"]["alts"][::-1] + [b["out"]["ref"]]; bads.append((b, "SameAlt"))
@@ -398,6 +564,14 @@ def main():
     b = copy.deepcopy(good[0]); b["out"]["gts"][0][0] = -1; b["out"]["filters"] = ["PASS"]; bads.append((b, "GenotypeComplete"))
     b = copy.deepcopy(good[0]); b["src"]["has_snvpos"] = True; b["src"]["snvpos"] = b["out"]["snvpos"][1:]; bads.append((b, "SnvColsSubsetOfSNVPOS"))
     b = copy.deepcopy(good[0]); b["present"] = False; bads.append((b, "RecordEmitted"))
+    # a run that drops the second of two adjacent records sharing CHROM and POS / prints a record twice
+    gr = [e for i, e in enumerate(events) if i not in rejected and e["kind"] == "run" and not e["crashed"]
+          and any(x.split(":")[:2] == y.split(":")[:2] for x, y in zip(e["src"], e["src"][1:]))]
+    if gr:
+        b = copy.deepcopy(gr[0])
+        j = [x.split(":")[:2] == y.split(":")[:2] for x, y in zip(b["src"], b["src"][1:])].index(True) + 1
+        b["out"] = [x for x in b["out"] if x != b["src"][j]]; bads.append((b, "EveryRecordOnce"))
+        b = copy.deepcopy(gr[0]); b["out"] = b["out"] + b["out"][:1]; bads.append((b, "EveryRecordOnce"))
     gc = [e for i, e in enumerate(events) if i not in rejected and e["kind"] == "codec" and len(e["cols"]) >= 2 and len(e["matrix"]) >= 3]
     if gc:
         b = copy.deepcopy(gc[0]); b["matrix"][1][0] += 1; bads.append((b, "Encode"))
@@ -409,6 +583,14 @@ def main():
             j = [len(a) >= 3 for a in b["alleles"]].index(True)
             b["alleles"][j] = [b["alleles"][j][0]] + b["alleles"][j][1:][::-1]
             bads.append((b, "FirstAppearanceNumbering"))
+        # the SNVs searched only among the columns an incomplete SNVPOS names
+        inc = [e for e in gc if e["hint"]["kind"] == "list" and e["hint"]["cols"] and not set(e["cols"]) <= set(e["hint"]["cols"])]
+        if inc:
+            b = copy.deepcopy(inc[0]); b["cols"] = [c for c in b["cols"] if c in b["hint"]["cols"]]; bads.append((b, "SnvColsArePolymorphic"))
+        cov = [e for e in gc if e["hint"]["kind"] == "list" and e["trusted"]["ok"] and set(e["cols"]) <= set(e["hint"]["cols"])]
+        if cov:
+            b = copy.deepcopy(cov[0]); b["trusted"]["matrix"][1][0] += 1; bads.append((b, "CoveringSnvposRoundTrips"))
+            b = copy.deepcopy(cov[0]); b["trusted"]["ok"] = False; bads.append((b, "CoveringSnvposRoundTrips"))
     tfb = os.path.join(ck.wd, "trace-corrupt.json")
     with open(tfb, "w") as fh:
         json.dump([b for b, _ in bads], fh)
@@ -432,7 +614,9 @@ def finish(ck, wdir):
     ck.exhaustive = True
     ck.assumptions = [
         "TLC and the CommunityModules Json/IOUtils operators are correct",
-        "codec: exhaustive within the stated alphabets / lengths / ALT counts; pipeline: assemble outputs are sampled over a grid of "
+        "codec: exhaustive within the stated alphabets / lengths / ALT counts, MC_hint*.cfg also over every SNVPOS annotation (absent, '.', "
+        "every non-empty column set); target lists: every ascending list of <= MaxRec targets of CallStream's target set (quick) / a seeded "
+        "sample of them (thorough); pipeline: assemble outputs are sampled over a grid of "
         "thresholds, ploidies, BAM sets and seeds on the repo's test data (REFMASKED / ALT-less / SNV-less / '.'-allele records included, counted in evidence)",
         "VCF text is rendered by vlib/vcfgen.py and program output is read by vlib/vcftext.py (no pysam on the oracle side)",
     ]
